@@ -240,6 +240,8 @@ class _NormalForm(ast.NodeTransformer):
 
     def __init__(self, mod: Module, fn: ast.FunctionDef, cls: T.Optional[str]):
         self.mod, self.cls = mod, cls
+        self.depth = 0
+        self.root = fn
         self.locals = {n.id for n in ast.walk(fn) if isinstance(n, ast.Name) and isinstance(n.ctx, (ast.Store, ast.Del))} | \
             {a.arg for a in ast.walk(fn) if isinstance(a, ast.arg)}
 
@@ -256,6 +258,21 @@ class _NormalForm(ast.NodeTransformer):
         self.generic_visit(c)
         if norm(c.func) == 'len' and len(c.args) == 1 and isinstance(c.args[0], ast.Constant) and isinstance(c.args[0].value, (str, tuple)):
             return ast.copy_location(ast.Constant(len(c.args[0].value)), c)
+        # a NamedTuple record of this module is the tuple of its fields (bound by field order / keyword)
+        if isinstance(c.func, ast.Name) and c.func.id not in self.locals and self.mod.has_cls(c.func.id):
+            k = self.mod.cls(c.func.id)
+            if any((attr_chain(b) or '').split('.')[-1] == 'NamedTuple' for b in k.bases):
+                fields = [st.target.id for st in k.body if isinstance(st, ast.AnnAssign) and isinstance(st.target, ast.Name)]
+                defaults = {st.target.id: st.value for st in k.body if isinstance(st, ast.AnnAssign) and isinstance(st.target, ast.Name) and st.value is not None}
+                vals: T.Dict[str, ast.AST] = dict(zip(fields, c.args))
+                for kw in c.keywords:
+                    if kw.arg in fields and kw.arg not in vals:
+                        vals[kw.arg] = kw.value
+                for f0 in fields:
+                    if f0 not in vals and f0 in defaults:
+                        vals[f0] = defaults[f0]
+                if len(c.args) <= len(fields) and set(vals) == set(fields) and not any(isinstance(a, ast.Starred) for a in c.args):
+                    return ast.copy_location(ast.Tuple(elts=[vals[f0] for f0 in fields], ctx=ast.Load()), c)
         if not c.keywords:
             return c
         callee: T.Optional[ast.FunctionDef] = None
@@ -279,7 +296,105 @@ class _NormalForm(ast.NodeTransformer):
             return c
         return ast.copy_location(ast.Call(func=c.func, args=[b[pn] for pn in given], keywords=[]), c)
 
+    def _const_rows(self, it: ast.AST) -> T.Optional[T.List[ast.AST]]:
+        """Elements of a constant table: a tuple/list display, or a module-level name bound once to one."""
+        if isinstance(it, ast.Name) and it.id not in self.locals and self.mod.has_assign(it.id):
+            it = self.mod.assign_value(it.id)
+        if isinstance(it, (ast.Tuple, ast.List)) and 0 < len(it.elts) <= 8 and not any(isinstance(x, ast.Starred) for x in it.elts):
+            simple = lambda x: isinstance(x, (ast.Name, ast.Constant, ast.Attribute)) or (isinstance(x, (ast.Tuple, ast.List)) and all(simple(y) for y in x.elts))     # noqa: E731
+            if all(simple(x) for x in it.elts):
+                return list(it.elts)
+        return None
+
+    def _unroll(self, st: ast.For) -> T.Optional[T.List[ast.stmt]]:
+        """`for a, b in CONST_TABLE: body` with no break/continue/else -> the body once per row, loop variables substituted."""
+        rows = self._const_rows(st.iter)
+        if rows is None or st.orelse or any(isinstance(n, (ast.Break, ast.Continue)) for x in st.body for n in ast.walk(x)):
+            return None
+        tnames = [st.target] if isinstance(st.target, ast.Name) else list(st.target.elts) if isinstance(st.target, ast.Tuple) else None
+        if tnames is None or not all(isinstance(t, ast.Name) for t in tnames):
+            return None
+        stored = {n.id for x in st.body for n in ast.walk(x) if isinstance(n, ast.Name) and isinstance(n.ctx, ast.Store)}
+        if stored & {t.id for t in tnames}:     # type: ignore[attr-defined]
+            return None
+        out: T.List[ast.stmt] = []
+        for row in rows:
+            vals = [row] if isinstance(st.target, ast.Name) else list(row.elts) if isinstance(row, (ast.Tuple, ast.List)) and len(row.elts) == len(tnames) else None     # type: ignore[attr-defined]
+            if vals is None:
+                return None
+            names = {t.id: v for t, v in zip(tnames, vals)}     # type: ignore[attr-defined]
+            out.extend(ast.fix_missing_locations(_Rename(names).visit(copy.deepcopy(x))) for x in st.body)
+        return out
+
+    def _inline_returns(self, st: ast.stmt) -> T.Optional[T.List[ast.stmt]]:
+        """`yield H(a)` / `return H(a)` where H is a module-level function made of tests and returns only: H's body in place,
+        every `return E` turned into the yield / return / assignment of E (the statements after an `if` go to both of its branches)."""
+        if isinstance(st, ast.Expr) and isinstance(st.value, ast.Yield) and isinstance(st.value.value, ast.Call):
+            call, mk = st.value.value, (lambda e: ast.Expr(value=ast.Yield(value=e)))
+        elif isinstance(st, ast.Return) and isinstance(st.value, ast.Call):
+            call, mk = st.value, (lambda e: ast.Return(value=e))
+        else:
+            return None     # (a value bound to a local first is read through the callee's own table where a rule needs it)
+        if not (isinstance(call.func, ast.Name) and call.func.id not in self.locals and self.mod.has_func(call.func.id)) or call.func.id == getattr(self.root, 'name', None) \
+                or self.depth > 1:
+            return None
+        h = self.mod.func(call.func.id)
+        hbody = [x for x in h.body if not (isinstance(x, ast.Expr) and isinstance(x.value, ast.Constant))]
+        if any(isinstance(n, (ast.For, ast.While, ast.Try, ast.With, ast.Yield, ast.YieldFrom, ast.FunctionDef, ast.Lambda, ast.Global, ast.Nonlocal)) for x in hbody for n in ast.walk(x)):
+            return None
+        if any(isinstance(n, ast.Call) and isinstance(n.func, ast.Name) and n.func.id == h.name for x in hbody for n in ast.walk(x)):
+            return None     # recursive helper
+        if not all(isinstance(a, (ast.Name, ast.Constant, ast.Attribute)) for a in call.args) or not all(isinstance(k.value, (ast.Name, ast.Constant, ast.Attribute)) for k in call.keywords):
+            return None
+        try:
+            bound = bind_call(call, h)     # type: ignore[arg-type]
+        except Undecided:
+            return None
+        stores = {n.id for x in hbody for n in ast.walk(x) if isinstance(n, ast.Name) and isinstance(n.ctx, ast.Store)}
+        if stores & set(bound):
+            return None
+        names: T.Dict[str, ast.AST] = dict(bound)
+        for loc in stores:
+            names[loc] = ast.Name(id=f'{h.name}__{loc}', ctx=ast.Load())
+
+        def conv(stmts: T.List[ast.stmt]) -> T.Optional[T.List[ast.stmt]]:
+            res: T.List[ast.stmt] = []
+            for i, x in enumerate(stmts):
+                if isinstance(x, ast.Return):
+                    res.append(ast.copy_location(mk(x.value if x.value is not None else ast.Constant(None)), st))
+                    return res
+                if isinstance(x, ast.If):
+                    rest = stmts[i + 1:]
+                    b, o = conv(list(x.body) + rest), conv(list(x.orelse) + rest)
+                    if b is None or o is None:
+                        return None
+                    res.append(ast.If(test=x.test, body=b or [ast.Pass()], orelse=o))
+                    return res
+                if isinstance(x, ast.Raise):
+                    res.append(x)
+                    return res
+                res.append(x)
+            return None     # falls off the end without a value: not a pure value helper
+        new = conv(copy.deepcopy(hbody))
+        if new is None:
+            return None
+        return [ast.fix_missing_locations(_Rename(names).visit(x)) for x in new]
+
     def _block(self, body: T.List[ast.stmt]) -> T.List[ast.stmt]:
+        expanded: T.List[ast.stmt] = []
+        for st in body:
+            rep_ = self._unroll(st) if isinstance(st, ast.For) else self._inline_returns(st)
+            if rep_ is not None:
+                self.depth += 1
+                sub = _NormalForm(self.mod, self.root, self.cls)     # normalise the inserted code as well
+                sub.root, sub.depth, sub.locals = self.root, self.depth, self.locals | {n.id for x in rep_ for n in ast.walk(x) if isinstance(n, ast.Name) and isinstance(n.ctx, ast.Store)}
+                wrapper = ast.Module(body=rep_, type_ignores=[])
+                sub.visit(wrapper)
+                expanded.extend(wrapper.body)
+                self.depth -= 1
+            else:
+                expanded.append(st)
+        body = expanded
         out: T.List[ast.stmt] = []
         for st in body:
             # walrus in a test
@@ -936,14 +1051,44 @@ def _matcher(ctx: RuleCtx, mod: Module, fn: ast.FunctionDef, post: T.List[ast.st
     if [a for a in tab.atoms() if a != empty_atom]:
         raise Undecided(f'cargo_parse: result selection tests {tab.atoms()}')
     cmp_fn: T.Optional[ast.FunctionDef] = None
+    names = {'OUTs': OUT, 'OUTt': OUT, 'ACCt': ACC, 'CANDt': 'ARG1', 'cand': ''}
+
+    def as_matcher(e: ast.AST) -> T.Optional[ast.FunctionDef]:
+        """The predicate by role: the nested closure, or a module-level function with the constraint list and the flag bound by
+        functools.partial / a forwarding lambda (arguments bound by signature)."""
+        if isinstance(e, ast.Name) and e.id in defs:
+            names.update(OUTs=OUT, OUTt=OUT, ACCt=ACC, CANDt='ARG1', cand=defs[e.id].args.args[0].arg if defs[e.id].args.args else '')
+            return defs[e.id]
+        call, free = None, None
+        if isinstance(e, ast.Call) and norm(e.func) in ('partial', 'functools.partial') and e.args and isinstance(e.args[0], ast.Name) and mod.has_func(e.args[0].id):
+            call = ast.Call(func=e.args[0], args=list(e.args[1:]), keywords=list(e.keywords))
+        elif isinstance(e, ast.Lambda) and len(e.args.args) == 1 and isinstance(e.body, ast.Call) and isinstance(e.body.func, ast.Name) and mod.has_func(e.body.func.id):
+            call, free = e.body, e.args.args[0].arg
+        if call is None:
+            return None
+        f = nf(mod, call.func.id)     # type: ignore[attr-defined]
+        params = [a.arg for a in f.args.args]
+        bound: T.Dict[str, str] = {}
+        for pn, a in zip(params, call.args):
+            bound[pn] = norm(a)
+        for k in call.keywords:
+            if k.arg in params:
+                bound[k.arg] = norm(k.value)
+        rest = [pn for pn in params if pn not in bound or bound[pn] == free]
+        outp = [pn for pn, v in bound.items() if v == OUT]
+        accp = [pn for pn, v in bound.items() if v == ACC]
+        if len(rest) != 1 or len(outp) != 1 or len(accp) != 1 or len(bound) + (0 if free else 1) != len(params):
+            return None
+        names.update(OUTs=outp[0], OUTt=f'ARG{params.index(outp[0]) + 1}', ACCt=f'ARG{params.index(accp[0]) + 1}', CANDt=f'ARG{params.index(rest[0]) + 1}', cand=rest[0])
+        return f
     for r in tab.rows:
         if r.outcome[0] != 'return':
             raise Undecided(f'cargo_parse: result row {r!r}')
         e = expr_of(r.outcome[1])
         if r.conds.get(empty_atom) is False or empty_atom not in r.conds:
             # no constraint (empty or `*`): every release, but - as for any requirement that names no pre-release - no pre-release
-            if isinstance(e, ast.Name) and e.id in defs:
-                cmp_fn = cmp_fn or defs[e.id]
+            if as_matcher(e) is not None:
+                cmp_fn = cmp_fn or as_matcher(e)
                 ctx.ok('cargo_parse: no constraint (empty or *) -> the same matcher (gate applies, no comparison left)')
             elif isinstance(e, ast.Lambda) and len(e.args.args) == 1 and norm(e.body) in (f'not SemVer({e.args.args[0].arg}).has_prerelease',):
                 ctx.ok('cargo_parse: no constraint (empty or *) -> every release, no pre-release')
@@ -959,14 +1104,15 @@ def _matcher(ctx: RuleCtx, mod: Module, fn: ast.FunctionDef, post: T.List[ast.st
             if empty_atom in r.conds:
                 continue
         if True:
-            if not (isinstance(e, ast.Name) and e.id in defs):
-                raise Undecided(f'cargo_parse: with constraints the result is {short(e)}, not a nested function')
-            cmp_fn = defs[e.id]
+            if as_matcher(e) is None:
+                raise Undecided(f'cargo_parse: with constraints the result is {short(e)}, not a matcher function this rule can find')
+            cmp_fn = as_matcher(e)
     if cmp_fn is None:
         raise Undecided('cargo_parse: no matcher returned')
-    qn = f'cargo_parse.{cmp_fn.name}'
+    qn = f'cargo_parse.{cmp_fn.name}' if cmp_fn.name in defs else cmp_fn.name
     t2 = tables.extract(cmp_fn, effects=eff, inline=False, bool_returns=True, name=qn)
-    arg = cmp_fn.args.args[0].arg
+    arg = names['cand']
+    OUTs, OUTt, ACCt, CANDt = names['OUTs'], names['OUTt'], names['ACCt'], names['CANDt']
     lhs = [st.targets[0].id for st in walk_no_nested(cmp_fn) if isinstance(st, ast.Assign) and isinstance(st.targets[0], ast.Name)
            and isinstance(st.value, ast.Call) and norm(st.value.func) == 'SemVer' and [norm(a) for a in st.value.args] == [arg]]
     if len(lhs) != 1:
@@ -974,12 +1120,12 @@ def _matcher(ctx: RuleCtx, mod: Module, fn: ast.FunctionDef, post: T.List[ast.st
     L = lhs[0]
     roles: T.Dict[Atom, str] = {}
     for a in t2.atoms():
-        texts = [x.replace('SemVer(ARG1)', L) for x in a.args if isinstance(x, str) and x not in ('eq', 'lt')]
+        texts = [x.replace(f'SemVer({CANDt})', L) for x in a.args if isinstance(x, str) and x not in ('eq', 'lt')]
         if a.kind == 'truth' and texts == [f'{L}.has_prerelease']:
             roles[a] = 'pre'
-        elif a == Atom('truth', (ACC,)):
+        elif a == Atom('truth', (ACCt,)):
             roles[a] = 'acc'
-        elif any('ARG1' in names_in(expr_of(x)) for x in texts):
+        elif any(CANDt in names_in(expr_of(x)) for x in texts):
             # must-flow-through: the candidate text reaches a decision only as SemVer(candidate)
             ctx.violation(mod, qn, f'decision on the raw candidate text: {a!r}', f'the matcher decides `{a!r}` on the raw version text instead of the parsed SemVer: build metadata '
                           f'("1.0.0+build-1"), white space and the section marker are only understood by SemVer() (the gate must be `SemVer(candidate).has_prerelease`)', cmp_fn)
@@ -1004,7 +1150,7 @@ def _matcher(ctx: RuleCtx, mod: Module, fn: ast.FunctionDef, post: T.List[ast.st
                     comp = fl[0]
                 call = e
             tgt = comp.target if comp is not None else None
-            if not (comp is not None and norm(comp.iter) == OUT and isinstance(tgt, ast.Tuple) and len(tgt.elts) == 2 and isinstance(call, ast.Call) and len(call.args) == 2):
+            if not (comp is not None and norm(comp.iter) in (OUTs, OUTt) and isinstance(tgt, ast.Tuple) and len(tgt.elts) == 2 and isinstance(call, ast.Call) and len(call.args) == 2):
                 raise Undecided(f'{qn}: atom {a!r} is not a comparison of the candidate with an appended pair of `{OUT}`')
             f, b = norm(tgt.elts[0]), norm(tgt.elts[1])
             if norm(call.func) == f and [norm(x) for x in call.args] == [L, b]:
@@ -1082,6 +1228,20 @@ def r1_next_ver(ctx: RuleCtx) -> None:
         if len(rdefs) == 1:
             retv = rdefs[0].value
             extra_known.append(rdefs[0])
+    comp_zero = None
+    if isinstance(retv, ast.Call) and len(retv.args) == 1 and isinstance(retv.args[0], ast.ListComp) and len(retv.args[0].generators) == 1:
+        # return SemVer([0 if i in range(idx + 1, 3) else c for i, c in enumerate(v)]): the zeroing done while copying
+        lc = retv.args[0]
+        g0 = lc.generators[0]
+        if isinstance(g0.iter, ast.Call) and norm(g0.iter.func) == 'enumerate' and len(g0.iter.args) == 1 and isinstance(g0.iter.args[0], ast.Name) and not g0.ifs \
+                and isinstance(g0.target, ast.Tuple) and len(g0.target.elts) == 2 and isinstance(lc.elt, ast.IfExp):
+            iname, cname = norm(g0.target.elts[0]), norm(g0.target.elts[1])
+            ldefs = {norm(st.targets[0]): st for st in walk_no_nested(fn) if isinstance(st, ast.Assign) and isinstance(st.targets[0], ast.Name)}
+            a0, pol0 = tables.canon(resolve(lc.elt.test, {k: v.value for k, v in ldefs.items() if k not in (norm(g0.iter.args[0]),)}), True)
+            yes, no = (lc.elt.body, lc.elt.orelse) if pol0 else (lc.elt.orelse, lc.elt.body)
+            if norm(no) == cname and isinstance(yes, ast.Constant):
+                comp_zero = (a0, norm(yes), iname, [st for k, st in ldefs.items() if k in names_in(lc.elt.test)])
+                retv = ast.Call(func=retv.func, args=[g0.iter.args[0]], keywords=[])
     if not (isinstance(retv, ast.Call) and norm(retv.func) in ('SemVer', 'type(self)', 'self.__class__') and len(retv.args) == 1 and isinstance(retv.args[0], ast.Name) and not retv.keywords):
         raise Undecided('next_ver: expected a single `return SemVer(<local list>)`')
     V = retv.args[0].id
@@ -1106,7 +1266,7 @@ def r1_next_ver(ctx: RuleCtx) -> None:
                 bumps.add(f'{V}[{idx}] {dict(Add="+", Sub="-", Mult="*").get(st.op.__class__.__name__, "?")} {norm(st.value)}')
     cell = f'{V}[{idx}]'
     # statements of next_ver that this rule does not account for: with any of them present an *absence* is not provable
-    known = [defs[0], rets[0]] + extra_known
+    known = [defs[0], rets[0]] + extra_known + (comp_zero[3] if comp_zero else [])
     unread = [st for st in fn.body if st not in known and not isinstance(st, (ast.Assert, ast.For)) and not (isinstance(st, ast.Expr) and isinstance(st.value, ast.Constant))
               and not (isinstance(st, ast.Assign) and isinstance(st.targets[0], ast.Name) and norm(st.value) in (f'{V}[{idx}]',))
               and not (isinstance(st, ast.Assign) and norm(st.targets[0]) == f'{V}[{idx}]')
@@ -1122,6 +1282,12 @@ def r1_next_ver(ctx: RuleCtx) -> None:
         if isinstance(lp.target, ast.Name) and isinstance(lp.iter, ast.Call) and norm(lp.iter.func) == 'range' and len(lp.body) == 1 and not lp.orelse \
                 and isinstance(lp.body[0], ast.Assign) and norm(lp.body[0].targets[0]) == f'{V}[{lp.target.id}]':
             zero = lp
+    if comp_zero is not None and not loops:
+        a0, fill, iname, _ = comp_zero
+        ok = fill == '0' and (a0 == Atom('in', (iname, f'range({idx} + 1, 3)')) or a0 == Atom('cmp', ('lt', idx, iname)))
+        ctx.require(ok, f'next_ver: components {idx}+1..2 are replaced by 0 while the list is rebuilt', mod, 'SemVer.next_ver', 'zeroing comprehension',
+                    f'the rebuilt list puts {fill} where `{a0!r}`; expected 0 for the positions range({idx} + 1, 3)', rets[0])
+        zero = 'slice'     # type: ignore[assignment]
     slice_zero = [st for st in unread if isinstance(st, ast.Assign) and norm(st.targets[0]) in (f'{V}[{idx} + 1:]', f'{V}[1 + {idx}:]', f'{V}[{idx} + 1:3]')]
     if zero is None and len(slice_zero) == 1 and len(unread) == 1 and not loops:
         val = norm(slice_zero[0].value)
@@ -1196,6 +1362,24 @@ def r1_next_ver(ctx: RuleCtx) -> None:
 # R2  SemVer ordering structure
 # =====================================================================================================
 
+def _padded_pairing(ctx: RuleCtx, mod: Module, core: str) -> None:
+    """Components paired with `zip_longest(a, b, fillvalue=C)` where C is itself a legal component (an int or a str): the vectors v and
+    v + [C] then produce the same pairs, so no loop body can tell them apart, although the longer one must rank higher (length key)."""
+    try:
+        name, fn = cmpcore.core_method(mod, 'SemVer', core)
+    except Undecided:
+        return
+    for lp in [x for x in ast.walk(fn) if isinstance(x, ast.For)]:
+        it = lp.iter
+        if isinstance(it, ast.Call) and norm(it.func).split('.')[-1] == 'zip_longest' and len(it.args) == 2:
+            fill = [k.value for k in it.keywords if k.arg == 'fillvalue']
+            if len(fill) == 1 and isinstance(fill[0], ast.Constant) and isinstance(fill[0].value, (int, str)) and not isinstance(fill[0].value, bool):
+                c = fill[0].value
+                ctx.violation(mod, f'SemVer.{name}', 'component vectors padded with a legal component', f'the core pairs the components with `{short(it)}`: the padding value {c!r} '
+                              f'is itself a legal component, so a vector and the same vector followed by {c!r} give identical pairs and compare equal '
+                              f'(1.0.0-a vs 1.0.0-a.{c}), but a larger set of pre-release fields has higher precedence (SemVer 11.4.4: the length key is lost)', lp)
+
+
 def _comparator_dispatch(ctx: RuleCtx, mod: Module, core: str) -> None:
     """A result of the core that *selects by the identity of the comparator* (`x if comparator is operator.gt else y`) instead of applying
     it: decided by enumerating the finite domain the source declares - the four operators the dunders pass - against the kind rule
@@ -1246,6 +1430,7 @@ def r2_core(ctx: RuleCtx) -> None:
     core = cmpcore.one_core(ctx, mod, 'SemVer')
     if core is None:
         return
+    _padded_pairing(ctx, mod, core)
     _comparator_dispatch(ctx, mod, core)
     keys = cmpcore.ranking_keys(ctx, mod, 'SemVer', core)
     want = [('isinstance(@, int)', 'desc'), ('@', 'asc'), ('len(@)', 'asc')]
@@ -1761,6 +1946,9 @@ def _eval_arms(mod: Module) -> T.Dict[str, T.Tuple[str, T.Optional[ast.AST]]]:
     for a in inst:
         if a.args[0] != 'ARG1':
             raise Undecided(f'_eval_cfg: isinstance test on {a.args[0]}')
+        strange = [n for n in a.args[1] if n not in ircls and not mod.has_cls(n)]
+        if strange:
+            raise Undecided(f'_eval_cfg: isinstance against {strange}, which is not a class of this module (table-driven dispatch this rule could not unroll)')
     for cname, info in ircls.items():
         def is_a(names: T.Tuple[str, ...]) -> bool:
             return cname in names or any(b in names for b in info['bases'])
@@ -2523,7 +2711,35 @@ def r4_escape(ctx: RuleCtx) -> None:
     # (3) after _parse the stream must be exhausted: decision table of parse (normal paths)
     tab = tables.extract(parse, effects=eff, inline=False, name='parse')
     seen = {'reject': 0, 'accept': 0}
-    for r in tab.rows:
+    # EAFP spelling of the same test: `try: next(stream) except StopIteration: return ir` followed by the raise - read on the CFG
+    probes = [n for n in g.nodes if n.kind == 'stmt' and isinstance(n.ast, ast.Expr) and isinstance(n.ast.value, ast.Call) and norm(n.ast.value.func) == 'next'
+              and len(n.ast.value.args) == 1 and not n.ast.value.keywords]
+    eafp = False
+    if len(probes) == 1:
+        pn = probes[0]
+        stream = norm(pn.ast.value.args[0])     # type: ignore[union-attr]
+        sdef = [st for st in walk_no_nested(parse) if isinstance(st, (ast.Assign, ast.AnnAssign)) and norm(st.targets[0] if isinstance(st, ast.Assign) else st.target) == stream]
+        same_stream = any(isinstance(c, ast.Call) and norm(c.func) == '_parse' and [norm(a) for a in c.args] == [stream] for c in ast.walk(parse)) and len(sdef) == 1 \
+            and norm(sdef[0].value) == f'lookahead({parse.args.args[0].arg})'
+        hs = [g.nodes[b] for b, lab in g.succ[pn.id] if lab == 'exc' and g.nodes[b].kind == 'handler']
+        stop = [h for h in hs if set(_exc_names(h.ast)) & {'StopIteration'}]     # type: ignore[arg-type]
+        if same_stream and len(stop) == 1:
+            hreach = g.reachable([stop[0]])
+            h_ok = g.exit_return.id in hreach and not any(g.nodes[i].kind == 'stmt' and isinstance(g.nodes[i].ast, ast.Raise) for i in hreach)
+            hrets = [g.nodes[i].ast for i in hreach if g.nodes[i].kind == 'stmt' and isinstance(g.nodes[i].ast, ast.Return)]
+            irdef = {norm(st.targets[0]) for st in walk_no_nested(parse) if isinstance(st, ast.Assign) and isinstance(st.value, ast.Call) and norm(st.value.func) == '_parse'}
+            h_ok = h_ok and bool(hrets) and all(r0.value is not None and norm(r0.value) in irdef for r0 in hrets)     # type: ignore[union-attr]
+            nreach = g.reachable([pn], edge_ok=lambda a, b, lab: lab != 'exc')
+            n_ok = g.exit_return.id not in nreach and any(g.nodes[i].kind == 'stmt' and isinstance(g.nodes[i].ast, ast.Raise) for i in nreach) and \
+                all(attr_chain(g.nodes[i].ast.exc.func if isinstance(g.nodes[i].ast.exc, ast.Call) else g.nodes[i].ast.exc) in ok_classes     # type: ignore[union-attr]
+                    for i in nreach if g.nodes[i].kind == 'stmt' and isinstance(g.nodes[i].ast, ast.Raise))
+            eafp = True
+            ctx.require(n_ok, 'parse: a token left after the expression -> MesonException (next() succeeds -> raise)', mod, 'parse', 'leftover rejected (EAFP)',
+                        'after a successful `next(stream)` (a token is left) parse can still return instead of raising MesonException', pn.ast)
+            ctx.require(h_ok, 'parse: an exhausted stream -> the IR of _parse (StopIteration of next() -> return ir)', mod, 'parse', 'result (EAFP)',
+                        'when `next(stream)` raises StopIteration (stream exhausted) parse does not return the IR of _parse', stop[0].ast)
+            seen = {'reject': 1, 'accept': 1}
+    for r in ([] if eafp else tab.rows):
         env, rest = propagate(stmts_of(r))
         left = None
         for a, v in r.conds.items():
@@ -2671,7 +2887,8 @@ def r4_escape(ctx: RuleCtx) -> None:
     ec = nf(mod, 'eval_cfg')
     t3 = tables.extract(ec, effects=eff, inline=False, name='eval_cfg')
     sw, ew = Atom('truth', ("ARG1.startswith('cfg(')",)), Atom('truth', ("ARG1.endswith(')')",))
-    if not set(t3.atoms()) <= {sw, ew}:
+    memo_atoms = {a for a in t3.atoms() if a.kind == 'in' and mod.has_assign(a.args[1]) and isinstance(mod.assign_value(a.args[1]), ast.Dict)}     # `key in CACHE`
+    if not set(t3.atoms()) <= {sw, ew} | memo_atoms:
         raise Undecided(f'eval_cfg: tests {t3.atoms()}')
     for w in t3.worlds([sw, ew]):
         rows = t3.fire(w)
@@ -2680,6 +2897,24 @@ def r4_escape(ctx: RuleCtx) -> None:
         want = "_eval_cfg(parse(lexer(ARG1[4:-1])), ARG2)" if (w[sw] and w[ew]) else 'False'
         envw, _restw = propagate(stmts_of(rows[0]))
         gotw = ('return', norm(resolve(expr_of(rows[0].outcome[1]), envw))) if rows[0].outcome[0] == 'return' else rows[0].outcome
+        # memoised spelling: `if key not in CACHE: CACHE[key] = E` ... `return CACHE[key]` - the value is E, provided the key keeps both arguments
+        mm = _re.fullmatch(r'(\w+)\[(.+)\]', gotw[1]) if gotw[0] == 'return' else None
+        if mm is not None and mod.has_assign(mm.group(1)) and isinstance(mod.assign_value(mm.group(1)), ast.Dict) and not mod.assign_value(mm.group(1)).keys:     # type: ignore[union-attr]
+            cache, key = mm.group(1), mm.group(2)
+            stores = [st for st in ast.walk(ec) if isinstance(st, ast.Assign) and isinstance(st.targets[0], ast.Subscript) and norm(st.targets[0].value) == cache]
+            if len(stores) == 1:
+                kenv, _ = propagate([st for st in walk_no_nested(ec) if isinstance(st, ast.Assign) and isinstance(st.targets[0], ast.Name)])
+                kexpr = _Rename(tables._param_map(ec)).visit(resolve(stores[0].targets[0].slice, kenv))
+                parts = [norm(x) for x in kexpr.elts] if isinstance(kexpr, ast.Tuple) else [norm(kexpr)]
+                whole = {'frozenset(ARG2.items())', 'tuple(sorted(ARG2.items()))', 'tuple(ARG2.items())'}
+                lossy = {'frozenset(ARG2)', 'tuple(ARG2)', 'tuple(sorted(ARG2))', 'len(ARG2)', 'frozenset(ARG2.keys())', 'tuple(ARG2.keys())'}
+                if 'ARG1' in parts and any(x in whole for x in parts):
+                    gotw = ('return', norm(_Rename(tables._param_map(ec)).visit(resolve(stores[0].value, kenv))))
+                elif any(x in lossy for x in parts) or 'ARG1' not in parts:
+                    ctx.violation(mod, 'eval_cfg', 'memo key drops part of the arguments', f'eval_cfg caches its verdict in `{cache}` under the key `({", ".join(parts)})`: the key does not '
+                                  f'keep {"the values of the configuration (only its names)" if "ARG1" in parts else "the expression text"}, so `cfg(target_os = "linux")` evaluated once '
+                                  f'for {{target_os: linux}} is replayed for {{target_os: windows}}', stores[0])
+                    continue
         if gotw != ('return', want) and gotw[0] == 'return':
             unknown = [norm(c.func) for c in ast.walk(expr_of(gotw[1])) if isinstance(c, ast.Call) and isinstance(c.func, ast.Name) and c.func.id not in ('_eval_cfg', 'parse', 'lexer')]
             if unknown:
